@@ -325,6 +325,10 @@ impl Ctx {
             );
         }
         let mut replay_paths = vec![];
+        if self.args.replay.is_none() {
+            // replay files of earlier runs are stale
+            let _ = fs::remove_dir_all(format!("{VERIF_ROOT}/replays/{prop}"));
+        }
         if !unknown.is_empty() {
             let dir = format!("{VERIF_ROOT}/replays/{prop}");
             let _ = fs::create_dir_all(&dir);
